@@ -166,3 +166,154 @@ def check_day_count(ctx, Numeric):
             continue
         seen.add(key)
         ctx.finding(f'C01:DAYCOUNT|{key}', 'C01-B day count', span, f'date_to_days, {key}: {msg}')
+
+
+# ----------------------------------------------------------------------------------------------------------------
+D2D = 'util::date::convert::days_to_date'
+LEAPOCH = 730_179          # 2000-03-01, checked against the constant in days_to_date by C01-D4
+CYCLE = 146_097
+
+
+def march_years():
+    """the 400 March-based years of one cycle starting 2000-03-01: (c, q, r1, start offset, length)"""
+    out = []
+    s = 0
+    for c in range(4):
+        for q in range(25):
+            for r1 in range(4):
+                r = 100 * c + 4 * q + r1
+                cal = 2001 + r                      # the calendar year whose February ends this March-based year
+                ln = 366 if (cal % 4 == 0 and (cal % 100 != 0 or cal % 400 == 0)) else 365
+                out.append((c, q, r1, s, ln))
+                s += ln
+    assert s == CYCLE and len(out) == 400
+    assert all(st == 36_524 * c + 1_461 * q + 365 * r1 for c, q, r1, st, _l in out)
+    return out
+
+
+def _inverse_worker(job):
+    """one chunk of classes: date_to_days(days_to_date(n)) == n for n = LEAPOCH + 146097*cycle + start + t, cycle and t symbolic"""
+    from .cli import Ctx
+    from .numeric import Numeric
+    from .absint import St
+    cfg, chunk = job
+    ctx = Ctx('C01', 'quick', 0)
+    N = Numeric(ctx, cfg, max_disj=400, max_steps=5_000_000)
+    I = N.I
+    I.return_partition[D2D] = lambda I_, st, v: id(st)
+    I.return_partition[DTD] = lambda I_, st, v: id(st)
+    problems = []
+    npaths = 0
+    for (c, q, r1, S, ln, mode, tlo, thi) in chunk:
+        st = St()
+        st.frames[0] = {}
+        I.cur_entry = 'C01 inverse'
+        I.stack = []
+        t = I.top(st, I32, 't', lo=tlo, hi=thi) if tlo != thi else const_int(tlo, 'i32')
+        if mode[0] == 'pos':
+            cyc = I.top(st, I32, 'cycle', lo=0, hi=mode[1])
+            n = I.binop(st, 'Mul', cyc, const_int(CYCLE, 'i32'), I32, None, None)
+            n = I.binop(st, 'Add', n, const_int(LEAPOCH + S, 'i32'), I32, None, None)
+        elif mode[0] == 'mid':
+            u = I.top(st, I32, 'cycle+5', lo=0, hi=4)
+            n = I.binop(st, 'Mul', u, const_int(CYCLE, 'i32'), I32, None, None)
+            n = I.binop(st, 'Add', n, const_int(LEAPOCH - 5 * CYCLE + S, 'i32'), I32, None, None)
+        elif mode[0] == 'neg':
+            p = I.top(st, I32, '-cycle-6', lo=1, hi=mode[1])          # cycle <= -7 (cycle -6 is analysed as a constant)
+            n = I.binop(st, 'Mul', p, const_int(-CYCLE, 'i32'), I32, None, None)
+            n = I.binop(st, 'Add', n, const_int(LEAPOCH - 6 * CYCLE + S, 'i32'), I32, None, None)
+        else:
+            n = const_int(LEAPOCH + mode[1] * CYCLE + S, 'i32')
+        n = I.binop(st, 'Add', n, t, I32, None, None) if not (t[0] == 'i' and t[1] in D.CONSTVAL and n[1] in D.CONSTVAL) else const_int(D.CONSTVAL[n[1]] + D.CONSTVAL[t[1]], 'i32')
+        name = f'{mode[0]} cycle, March-year {100 * c + 4 * q + r1}, t {tlo}..{thi}'
+        import signal
+
+        def _alarm(signum, frame):
+            raise TimeoutError('time budget of one class exceeded')
+        signal.signal(signal.SIGALRM, _alarm)
+        signal.alarm(20)
+        try:
+            outs = I.call_body(st, D2D, [n], ('entry', D2D))
+            pairs = []
+            for s, v in outs:
+                if v[0] != 't' or len(v[1]) != 3:
+                    problems.append((name, 'days_to_date result not tracked'))
+                    continue
+                y, m, d = v[1]
+                for s2, rv in I.call_body(s, DTD, [y, m, d], ('entry', DTD)):
+                    pairs.append((s2, rv, m, d))
+        except Exception as e:      # noqa
+            signal.alarm(0)
+            problems.append((name, f'analysis failed: {e}'))
+            I.stack = []
+            continue
+        signal.alarm(0)
+        if not outs:
+            problems.append((name, 'days_to_date has no result'))
+        for s2, rv, m, d in pairs:
+            if True:
+                npaths += 1
+                if rv[0] != 'e' or 0 not in rv[2] or 1 in rv[2]:
+                    problems.append((name, f'date_to_days rejects the date days_to_date returned (month {D.get_iv(s2, m[1])}, day {D.get_iv(s2, d[1])})'))
+                    continue
+                if not D.aff_equiv(D.aff_of(rv[2][0][0][1]), D.aff_of(n[1]), st=s2):
+                    problems.append((name, f'date_to_days(days_to_date(n)) = {D.aff_of(rv[2][0][0][1])}, n = {D.aff_of(n[1])} (month {D.get_iv(s2, m[1])})'))
+    return problems, npaths, len(chunk)
+
+
+def check_inverse(ctx, Numeric):
+    """C01-I: days_to_date is a right inverse of date_to_days on every i32 day number (with C01-B: the two are mutually inverse)"""
+    import multiprocessing as mp
+    MAXN, MINN = (1 << 31) - 1, -(1 << 31)
+    jobs = []
+    pos_full = (MAXN - LEAPOCH - (CYCLE - 1)) // CYCLE            # last cycle index that fits completely
+    neg_full = (LEAPOCH - 6 * CYCLE - MINN) // CYCLE               # p = -cycle-6 for the last complete cycle below
+    for (c, q, r1, S, ln) in march_years():
+        jobs.append((c, q, r1, S, ln, ('pos', pos_full), 0, ln - 1))
+        for cyc in range(-6, 0):          # the cycles around the era boundary, one by one (constants fold)
+            jobs.append((c, q, r1, S, ln, ('const', cyc), 0, ln - 1))
+        if S == 0:
+            # first day of a cycle: the day number is an exact multiple of the cycle length below LEAPOCH (no remainder fix-up)
+            jobs.append((c, q, r1, S, ln, ('neg', neg_full), 0, 0))
+            jobs.append((c, q, r1, S, ln, ('neg', neg_full), 1, ln - 1))
+        else:
+            jobs.append((c, q, r1, S, ln, ('neg', neg_full), 0, ln - 1))
+        # the partial cycles at both ends of the i32 range: constant cycle index, t clipped to the representable days
+        hi_c = pos_full + 1
+        lo_n, hi_n = LEAPOCH + hi_c * CYCLE + S, LEAPOCH + hi_c * CYCLE + S + ln - 1
+        if lo_n <= MAXN:
+            jobs.append((c, q, r1, S, ln, ('const', hi_c), 0, min(ln - 1, MAXN - lo_n)))
+        lo_c = -6 - neg_full - 1
+        lo_n = LEAPOCH + lo_c * CYCLE + S
+        if lo_n + ln - 1 >= MINN:
+            jobs.append((c, q, r1, S, ln, ('const', lo_c), max(0, MINN - lo_n), ln - 1))
+    # coverage of the i32 range by the classes (independent arithmetic)
+    covered = (pos_full + 1) * CYCLE + 6 * CYCLE + neg_full * CYCLE
+    hi_c = pos_full + 1
+    covered += max(0, MAXN - (LEAPOCH + hi_c * CYCLE) + 1)
+    lo_c = -6 - neg_full - 1
+    covered += max(0, (LEAPOCH + (lo_c + 1) * CYCLE - 1) - MINN + 1)
+    full = covered == (1 << 32)
+    nproc = min(16, max(1, mp.cpu_count()))
+    chunks = [(ctx_cfg(ctx), jobs[i::nproc]) for i in range(nproc)]
+    with mp.get_context('fork').Pool(nproc) as pool:
+        res = pool.map(_inverse_worker, chunks, chunksize=1)
+    problems = [p for r in res for p in r[0]]
+    npaths = sum(r[1] for r in res)
+    nclasses = sum(r[2] for r in res)
+    span = None
+    ctx.rule('C01-I the classes cover every i32 day number exactly once', 1, 1 if full else 0)
+    if not full:
+        ctx.finding('C01:INVERSE|coverage', 'C01-I inverse', span, f'internal: the residue classes cover {covered} day numbers, expected {1 << 32}')
+    ctx.rule('C01-I date_to_days(days_to_date(n)) == n per March-year class and cycle range (symbolic cycle index and day)', nclasses, nclasses - len({p[0] for p in problems}),
+             floor=3200, sample={'paths': npaths})
+    seen = set()
+    for name, msg in problems:
+        if name in seen or len(seen) >= 6:
+            continue
+        seen.add(name)
+        ctx.finding(f'C01:INVERSE|{name}', 'C01-I inverse', span, f'days_to_date is not the inverse of date_to_days: {name}: {msg}')
+
+
+def ctx_cfg(ctx):
+    return 'default'
